@@ -293,6 +293,15 @@ def kvsHold (db : DB) (i : Nat) (kvs : List (Nat × Nat × Val)) : Bool :=
 def selectByRow (T : Tree) (db : DB) (c : Nat) (kvs : List (Nat × Nat × Val)) (i : Nat) : Option Res :=
   if joinUp T db c i (byNeeded c kvs) && kvsHold db i kvs then some (get T db c i) else none
 
+/-! ## class-level bulk deletes -/
+
+/-- `cls.deleteMany(where)` / `cls.deleteBy(**kw)`: `SQLObject`'s classmethods, which
+    `InheritableSQLObject` does not override: one `DELETE FROM <table of cls> WHERE …` (the clause
+    can only mention that table's columns: a DELETE has no join).  Not part of `Op`: see
+    `C15_bulk_delete_keeps_no_orphan_full_FALSE`. -/
+def bulkDelete (db : DB) (c : Nat) (f : Filter) : DB :=
+  fun c' j => if c' = c ∧ f.eval db j = true then none else db c' j
+
 /-! ## histories -/
 
 inductive Op where
